@@ -57,9 +57,9 @@ fn main() {
                 }
             }
         }
-        "codec" | "ops" | "spec" => {
-            let salt: u64 = match cmd { "codec" => 0xC0DEC, "ops" => 0x0B5, _ => 0x59EC };
-            let genf: fn(&mut Rng, bool) -> serde_json::Value = match cmd { "codec" => cvh::codec::gen_case, "ops" => cvh::ops::gen_case, _ => cvh::specgen::gen_case };
+        "codec" | "ops" | "spec" | "algo" => {
+            let salt: u64 = match cmd { "codec" => 0xC0DEC, "ops" => 0x0B5, "algo" => 0xA160, _ => 0x59EC };
+            let genf: fn(&mut Rng, bool) -> serde_json::Value = match cmd { "codec" => cvh::codec::gen_case, "ops" => cvh::ops::gen_case, "algo" => cvh::ops::gen_algo_case, _ => cvh::specgen::gen_case };
             std::panic::set_hook(Box::new(|_| {}));
             if let Some(p) = arg(&args, "--replay") {
                 // replay: lines carry their generator coordinates
@@ -77,6 +77,14 @@ fn main() {
             for case in start..cases {
                 let mut rng = Rng::new(seed.wrapping_mul(1_000_003).wrapping_add(case) ^ salt);
                 let mut line = genf(&mut rng, thorough);
+                line["case"] = json!(case); line["gen"] = json!({"seed": seed, "case": case, "thorough": thorough});
+                let mut o = out.lock(); writeln!(o, "{}", line).unwrap();
+            }
+        }
+        "proc" => {
+            for case in start..cases {
+                let mut rng = Rng::new(seed.wrapping_mul(1_000_003).wrapping_add(case) ^ 0x9A0C);
+                let mut line = cvh::proc::gen_case(&mut rng, thorough, case);
                 line["case"] = json!(case); line["gen"] = json!({"seed": seed, "case": case, "thorough": thorough});
                 let mut o = out.lock(); writeln!(o, "{}", line).unwrap();
             }
